@@ -1186,16 +1186,15 @@ Lemma track_cap_reverse tau m cap nt g : forall d st,
 Proof.
   induction g as [|t g IH]; intros d st; [reflexivity|]. unfold reverse_nonliteral in *. cbn [flat_map].
   unfold reverse_triple. destruct (str_eqb (tp t) tau) eqn:Et.
-  - cbn [app track_cap]. destruct (cap_allows tau cap st t) as [[|]|]; [|apply IH | reflexivity].
-    destruct (relevant tau m t); [|apply IH]. destruct (to t) as [o|l dt]; [|reflexivity].
+  - cbn [app track_cap]. destruct (relevant tau m t); [|apply IH].
+    destruct (cap_allows tau cap st t) as [[|]|]; [|apply IH | reflexivity].
+    destruct (to t) as [o|l dt]; [|reflexivity].
     destruct nt as [n|]; [|apply IH].
     match goal with |- context [if ?b then _ else _] => destruct b end; [reflexivity | apply IH].
-  - assert (Ec : forall t', tp t' = tp t -> cap_allows tau cap st t' = Some true).
-    { intros t' E. unfold cap_allows. rewrite E, Et. reflexivity. }
-    assert (Es : track_cap tau m cap nt (t :: g) d st = track_cap tau m cap nt g d st).
-    { cbn [track_cap]. rewrite (Ec t eq_refl), (relevant_tp tau m t Et). reflexivity. }
+  - assert (Es : track_cap tau m cap nt (t :: g) d st = track_cap tau m cap nt g d st).
+    { cbn [track_cap]. rewrite (relevant_tp tau m t Et). reflexivity. }
     rewrite Es. destruct (to t) as [o|l dt]; [|apply IH]. cbn [app track_cap].
-    rewrite (Ec (T o (tp t) (ON (ts t))) eq_refl), (relevant_tp tau m (T o (tp t) (ON (ts t))) Et). apply IH.
+    rewrite (relevant_tp tau m (T o (tp t) (ON (ts t))) Et). apply IH.
 Qed.
 
 Theorem track_reverse tau m cap g : track tau m cap (reverse_nonliteral tau g) = track tau m cap g.
